@@ -1,5 +1,6 @@
 import GoMailModel.Proofs.Plan
 import GoMailModel.Proofs.PlanOrder
+import GoMailModel.Generated.Narrow
 /-
   C12 — Render failures are reported: never a panic, never silent success.
   The model is total (no partial function, no `panic` branch): what Go could dereference after a
@@ -103,5 +104,14 @@ example : ∃ acc n st, writeTo ({ parts := [
 example : NoFailingProducers ({ parts := [{ ctype := sb "text/plain", charset := [], desc := [], enc := encQP, prod := { content := sb "hi" } }] } : MsgState) ∧
     GoodBoundaries ({} : MsgState) := by
   refine ⟨⟨?_, ?_, ?_⟩, ?_⟩ <;> simp [GoodBoundaries, GoodGiven]
+
+
+/-- Fact regenerated from the sources: the only integers narrower than `int` in the library are the nesting
+    depth of the multipart writer (at most four layers) and the step counter of LOGIN (at most two steps). No
+    count of parts, recipients, refusals, header fields, parameters or bytes is kept in a type that wraps at 128,
+    256 or 65536 - the theorems of this file quantify over all sizes, and this is the part of the tie that says the
+    code does not silently stop doing so. -/
+theorem no_narrow_counters :
+    Generated.narrowInts = ["msgwriter.go: int8", "smtp/auth_login.go: uint8"] := by decide
 
 end GoMail.Props.C12
